@@ -86,7 +86,8 @@ func (d *DiscoverRoutesWithPeerIDs) IsEquivalent(other directive.Directive) bool
 		return false
 	}
 
-	return d.localPeerID == od.DiscoverRoutesLocalPeerID()
+	return d.localPeerID == od.DiscoverRoutesLocalPeerID() &&
+		d.remotePeerID == od.DiscoverRoutesRemotePeerID()
 }
 
 // Superceeds checks if the directive overrides another.
